@@ -32,7 +32,8 @@ class Cfg:
     selection: bool = False
     flavours: str = "s"  # s(ync) a(sync)
     kwargs: bool = False  # last dependency passed by keyword
-    # (route s: is_sequential of every node through one entry addressed to the tag all nodes share)
+    # (route s: is_sequential of every node through one entry addressed to the tag all nodes share; route k: the DAG is
+    #  derived with compose(..., max_concurrency=mc) from one built with another limit)
     # how the configuration reaches the DAG: d(ecorators) a(ttribute assignment of max_concurrency) c(onfig_from_dict with
     # priority + is_sequential per node) p(config_from_dict with the priority only: is_sequential must survive)
     # t(config_from_dict addressed through a tag shared by all nodes: one priority for all, is_sequential must survive)
@@ -545,6 +546,9 @@ def run_sched(cfg: Cfg, c: Ctx) -> Any:
         pipe.config_from_dict({"nodes": {"g": {"priority": shared}}, "max_concurrency": mc})
     elif route == "s":
         pipe.config_from_dict({"nodes": {"g": {"is_sequential": shared_seq}}, "max_concurrency": mc})
+    elif route == "k":
+        # the DAG that runs is derived with compose(): same inputs, every node an output, the limit passed to compose()
+        pipe = pipe.compose("pipe_k", ..., [xns[l] for l in labels], is_async=(flavour == "a"), max_concurrency=mc)
 
     from tawazi import cfg as twz_cfg
 
